@@ -1,14 +1,15 @@
 package main
 
 import (
+	"bytes"
 	"context"
 	"fmt"
-	"io"
 	"log"
 	"net"
 	"os"
 	"path/filepath"
 	"strconv"
+	"strings"
 	"sync"
 	"time"
 
@@ -165,6 +166,34 @@ func (in *instance) stop(removeDir bool) bool {
 	return ok
 }
 
+// hashFailTap swallows the instances' log output and keeps the lines in which a store
+// verification reports a hash mismatch ("Hash failed for ..."): verifyNodeHashes only logs them.
+type logTap struct {
+	mu    sync.Mutex
+	lines []string
+}
+
+func (t *logTap) Write(p []byte) (int, error) {
+	if bytes.Contains(p, []byte("Hash failed for")) {
+		t.mu.Lock()
+		if len(t.lines) < 200 {
+			t.lines = append(t.lines, strings.TrimSpace(string(p)))
+		}
+		t.mu.Unlock()
+	}
+	return len(p), nil
+}
+
+func (t *logTap) take() []string {
+	t.mu.Lock()
+	defer t.mu.Unlock()
+	l := t.lines
+	t.lines = nil
+	return l
+}
+
+var hashFailTap = &logTap{}
+
 func quietLogs() {
-	log.SetOutput(io.Discard)
+	log.SetOutput(hashFailTap)
 }
